@@ -860,4 +860,21 @@ example : ∃ r,
 example : CommandTree.runAt false (.ok ()) ⟨0, 5⟩ (.node [.node []]) [3] [] (.ret ⟨true, .ok 0⟩) (fun _ => true) = none := by
   rw [sub_command_run]; rfl
 
+/-! ## Non-vacuity of the theorems added in rounds 8-9 (hypothesis audit) -/
+
+section AuditR9
+open Clikit Clikit.Run
+
+/-- `sub_command_dispatcher` / `command_without_application` applied (the hypothesis binds the command the path
+reaches): `pkg` with sub-commands `add` and `repo`, `repo` with one of its own - the command two levels down holds the
+application's dispatcher 5; the same tree built without an application consults nobody -/
+example : ∃ c, CommandTree.descend (CommandTree.build (some ⟨0, 5⟩) (.node [.node [], .node [.node []]])) [1, 0] = some c ∧
+    c.dispatcher = some 5 ∧ c.application = some ⟨0, 5⟩ :=
+  ⟨_, rfl, sub_command_dispatcher ⟨0, 5⟩ (.node [.node [], .node [.node []]]) [1, 0] _ rfl⟩
+example : ∃ c, CommandTree.descend (CommandTree.build none (.node [.node [], .node [.node []]])) [1, 0] = some c ∧
+    c.dispatcher = none ∧ CommandTree.consulted ⟨0, 5⟩ c [Listener.pass] = [] :=
+  ⟨_, rfl, command_without_application (.node [.node [], .node [.node []]]) [1, 0] _ rfl ⟨0, 5⟩ [.pass]⟩
+
+end AuditR9
+
 end Clikit.Props.C04
